@@ -39,7 +39,7 @@ EXHAUSTIVE_SUBSPACES = {
 }
 
 CONFIGS = ['', 'clean_qq', 'qq_depth.3', 'qq_depth_min.1,break_halves',
-           'qq_depth_max.2']
+           'qq_depth_max.2', 'clean_qq,qq_depth.1']
 COMPACT = {'sym', 'slash', 'bare', 'frac', 'lower-slash'}
 # Spellings that END in a digit / fraction symbol: a compact spelling may
 # follow them directly (no joiner).
@@ -146,6 +146,10 @@ def check_bare(text, exp_plain, exp_clean, ctx, rep, pytrs):
         with ctx.guard(case):
             if kw is None:
                 t = pytrs.Tract(text, parse_qq=True, config=cfg or None)
+            elif cfg and ctx.evaluations % 2:
+                # parsed once under the config, then again with the keyword
+                t = pytrs.Tract(text, parse_qq=True, config=cfg)
+                t.parse(clean_qq=kw)
             else:
                 t = pytrs.Tract(text, config=cfg or None)
                 t.parse(clean_qq=kw)
@@ -233,8 +237,14 @@ def run_shard(shard, ctx):
         chain = tuple(rng.choice(B.COMPONENTS) for _ in range(n))
         spellings = [rng.choice(table[c]) for c in chain]
         joiners = [rng.choice(JOINERS) for _ in range(n - 1)]
-        check_chain(chain, spellings, joiners, rng.choice(CONFIGS), ctx, rep,
-                    pytrs)
+        cfg = rng.choice(CONFIGS)
+        if 'clean_qq' in cfg and rng.random() < 0.6:
+            # Under clean_qq a bare two-letter quarter is an aliquot too.
+            for i, c in enumerate(chain):
+                if c in B.QUARTERS and rng.random() < 0.5:
+                    spellings[i] = (rng.choice([c, c.lower(), c.title()]),
+                                    'plain')
+        check_chain(chain, spellings, joiners, cfg, ctx, rep, pytrs)
 
 
 def replay(case, ctx):
@@ -246,7 +256,8 @@ def replay(case, ctx):
         return
     table = {c: dict((t, (s, t)) for s, t in B.component_spellings(c))
              for c in B.COMPONENTS}
-    spellings = [table[c][t] for c, t in zip(case['chain'], case['tags'])]
+    spellings = [(c, 'plain') if t == 'plain' else table[c][t]
+                 for c, t in zip(case['chain'], case['tags'])]
     check_chain(tuple(case['chain']), spellings, case['joiners'], case['cfg'],
                 ctx, rep, pytrs)
 
